@@ -161,12 +161,15 @@ func TestEphemeral(t *testing.T) {
 	ch := make(chan job, 64)
 	var wg sync.WaitGroup
 	var flush sync.Mutex
+	jit := vt.StartJitter()
+	defer jit.Stop()
 	for w := 0; w < vt.EnvInt("VERIF_PAR", 32); w++ {
 		wg.Add(1)
 		go func() {
 			defer wg.Done()
 			for j := range ch {
 				b := &bufEmitter{}
+				tStart := time.Now()
 				if j.be == "etcd" {
 					runEphSchedule(b, etcdBE, j.run, j.ops)
 				} else {
@@ -181,6 +184,9 @@ func TestEphemeral(t *testing.T) {
 						readBack: func(path string) (bool, int64) { return mr.Exists(path), 0 }}
 					runEphSchedule(b, be, j.run, j.ops)
 					mr.Close()
+				}
+				if jit.StarvedSince(tStart) { // heartbeat ticks and settle times mean nothing when the process was starved of CPU
+					continue
 				}
 				flush.Lock()
 				for _, ev := range b.evs {
